@@ -1,6 +1,6 @@
 (* C03 — Status roll-up of scenario, outline, rule, feature follows the documented table.
    Statements only; every proof is `exact <lemma of RollupProofs/RunnerRollup>`. *)
-From BV Require Import Base Status Rollup RollupProofs.
+From BV Require Import Base Status Rollup RollupProofs RollupCutShort.
 From BVGen Require Import StatusTable.
 
 (* --- the classification itself (generated tables, all 16 members) *)
@@ -200,6 +200,39 @@ Proof. exact outline_range. Qed.
 Print Assumptions outline_status_in_range.
 
 (* --- cached status: a run starts with clear_status, so only the latest run counts *)
+(* --- two more rows of the documented table: de-selected children are no execution; a run cut short is failed *)
+Theorem container_nothing_executed_is_untested_skips_included :
+  forall items, forallb skipped_or_untested items = true ->
+    existsb (fun s => status_eqb s untested) items = true ->
+    container_compute false items = untested.
+Proof. exact container_nothing_executed_skips_included. Qed.
+Print Assumptions container_nothing_executed_is_untested_skips_included.
+
+Theorem container_cut_short_after_passed_is_failed :
+  forall pre post, forallb passed_or_skipped pre = true ->
+    existsb (fun s => status_eqb s passed) pre = true ->
+    container_compute false (pre ++ untested :: post) = failed.
+Proof. exact container_cut_short_is_failed. Qed.
+Print Assumptions container_cut_short_after_passed_is_failed.
+
+Theorem outline_nothing_executed_is_untested_skips_included :
+  forall expected rows, forallb skipped_or_untested rows = true ->
+    existsb (fun s => status_eqb s untested) rows = true ->
+    outline_compute expected rows = untested.
+Proof. exact outline_nothing_executed_skips_included. Qed.
+Print Assumptions outline_nothing_executed_is_untested_skips_included.
+
+Theorem outline_cut_short_after_passed_is_failed :
+  forall expected pre post, forallb passed_or_skipped pre = true ->
+    existsb (fun s => status_eqb s passed) pre = true ->
+    outline_compute expected (pre ++ untested :: post) = failed.
+Proof. exact outline_cut_short_is_failed. Qed.
+Print Assumptions outline_cut_short_after_passed_is_failed.
+
+Example a_row_passed_then_the_run_was_aborted :
+  outline_compute 3 [passed; untested; untested] = failed /\ outline_compute 3 [skipped; untested; untested] = untested.
+Proof. split; reflexivity. Qed.
+
 Theorem status_after_clear_is_recomputed : forall computed, read_status untested computed = computed.
 Proof. exact read_after_clear. Qed.
 Print Assumptions status_after_clear_is_recomputed.
